@@ -1697,3 +1697,65 @@ def presence_requires_all(ctx: Ctx, v: LocalView, rule: str) -> int:
                     "died there: the blob counts as present, fetch_blob answers None, keep returns None and commits the path of that view to it"],
                     f"presence-partial:{show(t)[:40]}", what="has_blob reports a blob present while a name fetch_blob needs is missing")
     return n
+
+
+def presence_predicates_agree(ctx: Ctx, v: LocalView, rule: str) -> int:
+    """has_blob and fetch_blob ask the same question about each name they both look at (`os.path.exists` in both, not `isfile` in one): a blob that a file codec
+    lays out as a directory is otherwise absent for has_blob and present for fetch_blob - and present for the cache wrapper once it was fetched."""
+    rep = ctx.report
+    m = v.m
+    n = 0
+    hb = {}
+    for e in m.effects_of("has_blob"):
+        if e.kind == "PROBE":
+            hb.setdefault(show(e.term), set()).add(str(e.extra.get("how", "")).split(".")[-1])
+    fb = {}
+    for e in m.effects_of("fetch_blob"):
+        if e.kind == "PROBE":
+            fb.setdefault(show(e.term), set()).add(str(e.extra.get("how", "")).split(".")[-1])
+    f = v.func("has_blob")
+    for t in sorted(set(hb) & set(fb)):
+        n += 1
+        desc = f"has_blob and fetch_blob test {t[:60]} with the same predicate"
+        if hb[t] == fb[t]:
+            rep.ok(rule, _site(v, "has_blob"), desc + f" ({sorted(hb[t])})", f.loc())
+        else:
+            rep.bad(rule, _site(v, "has_blob"), desc, f.loc(), [f"has_blob: {sorted(hb[t])}; fetch_blob: {sorted(fb[t])}",
+                    "a registered file codec that writes a directory (partitioned data set): the bare store says absent although it can fetch the blob; once fetched through the cache wrapper "
+                    "the wrapper says present: wrapped and bare store disagree for the same operations"], f"presence-predicate:{t[:40]}",
+                    what="has_blob and fetch_blob disagree on what 'the blob file exists' means")
+    return n
+
+
+def decode_reads_blob(ctx: Ctx, v: LocalView, rule: str) -> int:
+    """Every `deserialize_from(..)` of fetch_blob is handed the location of the BLOB (the name under which store_blob published what the codec wrote), in every branch on
+    the kind of codec - not the location of the metadata or any other name."""
+    rep = ctx.report
+    m = v.m
+    m.expr_terms = {}
+    m.effects_of("fetch_blob")
+    f = v.func("fetch_blob")
+    n = 0
+    for c in f.own_nodes():
+        if not (isinstance(c, ast.Call) and isinstance(c.func, ast.Attribute) and c.func.attr == "deserialize_from" and c.args):
+            continue
+        a0 = c.args[0]
+        inner = a0.args[0] if isinstance(a0, ast.Call) and a0.args else a0
+        t = m.expr_terms.get(id(inner))
+        if t is None and isinstance(inner, ast.Name):
+            # the argument was evaluated elsewhere: the definition of the name
+            ds = flow_of(ctx.prog, f).defs_of_use(inner)
+            for d in ds:
+                if d.value is not None and m.expr_terms.get(id(d.value)) is not None:
+                    t = m.expr_terms.get(id(d.value))
+        n += 1
+        desc = f"`{unparse(c, 60)}` decodes the blob file"
+        if t is None:
+            rep.unknown(rule, _site(v, "fetch_blob"), desc, f.loc(c), [f"location `{unparse(inner, 40)}` not resolved by the effect model"])
+        elif _key_suffix(t) == "":
+            rep.ok(rule, _site(v, "fetch_blob"), desc + f" ({show(t)})", f.loc(c))
+        else:
+            rep.bad(rule, _site(v, "fetch_blob"), desc, f.loc(c), [f"{f.loc(c)}: the codec is handed {show(t)}",
+                    "a user codec of the CodecProtocol kind (registered with add_codec): the right codec is chosen by the persisted reference but it is given the metadata file: the value "
+                    "read back is not the value that was written"], stmt_key(c), what="fetch_blob hands a codec another file than the blob")
+    return n
